@@ -168,12 +168,12 @@ impl Report {
             by_key.entry(v.key.clone()).or_default().push(v);
         }
         // replay artefacts of earlier runs of this property are stale
-        let _ = std::fs::remove_dir_all(util::verif_root().join("replays").join(&self.id));
+        let _ = std::fs::remove_dir_all(util::out_root().join("replays").join(&self.id));
         let mut replay_paths = vec![];
         for (key, vs) in &by_key {
             for v in vs.iter().take(3) {
                 let h = util::fnv(&format!("{}{}{}", v.input.render(), v.ps, v.detail));
-                let dir = util::verif_root()
+                let dir = util::out_root()
                     .join("replays")
                     .join(&self.id)
                     .join(format!("{}-{:016x}", sanitize(key), h));
@@ -250,7 +250,7 @@ impl Report {
             "wall_s": wall,
             "violations": fresh.len(),
         });
-        let dir = util::verif_root().join("evidence");
+        let dir = util::out_root().join("evidence");
         let _ = std::fs::create_dir_all(&dir);
         let path = dir.join(format!("{}.json", self.id));
         let tmp = dir.join(format!("{}.json.tmp", self.id));
